@@ -6,6 +6,7 @@ import Pyunicorn.Lemmas.LineIdx
 import Pyunicorn.Generated.StructC20
 import Pyunicorn.Generated.StructC20Pyx
 import Pyunicorn.Generated.StructC20Py
+import Pyunicorn.Generated.StructC20Run
 /-!
 # C20 — compiled kernels never touch memory outside their arrays
 
@@ -1877,5 +1878,105 @@ theorem tmiObjCallX_witness :
         [[.fin 0, .fin 1, .pinf, .fin 1]] [[.fin 0, .ninf]] = .raise
     ∧ tmiObjCallX tmi_pysizes tmi_pychecks tmi_range_min tmi_range_max tmi_scaling 1 2 1 2 2
         [[.fin 0, .pinf]] [[.fin 0, .ninf]] = .safe := by decide +kernel
+
+end Pyunicorn.Access
+
+/-! # Round 5: the pointer walks of the two mutual-information routines, resolved
+
+`Generated/StructC20Run.lean` (translate/c20_crun.py, regenerated on every run) executes the
+statement tree of `_mutual_information` and `_test_mutual_information_fast` symbolically: running
+integer offsets (`in_time += n_time` at the end of the `i` loop) and running pointers
+(`p_original++` at the end of the `k` loop, `p_mi2 += N`) are induction variables of the loop whose
+body they close, so every pointer formation `p = a + e` and every dereference `*p` becomes
+`a[closed-form index]`; a bin number read from memory inside an offset (`*p_symbolic`) is a free
+parameter.  Rounds 2–4 listed these formations as "running" and left them to the trace model and
+T1; now they are in the static tie too. -/
+namespace Pyunicorn.Access
+open Pyunicorn.Generated.StructC20 Pyunicorn.Generated.StructC20Run
+
+/-- element counts of the arrays of `_test_mutual_information_fast` as the wrapper allocates them -/
+def tmiRunCnt (N n_time n_bins : Int) : String → Int
+  | "original_data" | "surrogates" | "symbolic_original" | "symbolic_surrogates" => N * n_time
+  | "hist_original" | "hist_surrogates" => N * n_bins
+  | "hist2d" => n_bins * n_bins
+  | "mi" => N * N
+  | _ => 0
+
+/-- **every pointer formed and every dereference in the current text of
+`_test_mutual_information_fast`** — the walks `p++` / `in_time += n_time` included — is inside its
+array (a formed pointer: at most one past the end), for all `N`, `n_time`, `n_bins ≥ 0`, all values
+of the loop variables in their ranges and all stored bin numbers in `[0, n_bins)` -/
+theorem tmi_run_sites_fine (N n_time n_bins i k j l m sO sS : Int) (hT : 0 ≤ n_time)
+    (hB : 0 ≤ n_bins) (hO : 0 ≤ sO ∧ sO < n_bins) (hS : 0 ≤ sS ∧ sS < n_bins) :
+    ∀ s ∈ tmi_run_sites N n_time n_bins i k j l m sO sS, s.guard →
+      siteFine s (tmiRunCnt N n_time n_bins s.arr) := by
+  have r1 := @row2 i N N; have r2 := @row2 i N n_time; have r3 := @row2 j N n_time
+  have r4 := @row2 i N n_bins; have r5 := @row2 j N n_bins; have r6 := @row2 l n_bins n_bins
+  have r7 := @row2 sO n_bins n_bins
+  simp only [tmi_run_sites, List.forall_mem_cons, List.not_mem_nil, false_imp_iff,
+    implies_true, and_true, tmiRunCnt]
+  (with_reducible and_intros) <;> site_bounds
+
+def miRunCnt (n_samples N n_bins : Int) : String → Int
+  | "anomaly" | "symbolic" => N * n_samples
+  | "hist" => N * n_bins
+  | "hist2d" => n_bins * n_bins
+  | "mi" => N * N
+  | _ => 0
+
+/-- the same for `_mutual_information` (climate): `p_mi2 = mi + i; p_mi2 += N` walks a column
+(`mi[i + j·N]`, `j ≤ i`), `ln_bins += n_bins` the rows of `hist2d` -/
+theorem mi_run_sites_fine (n_samples N n_bins i k j l m s s1 s2 : Int) (hT : 0 ≤ n_samples)
+    (hB : 0 ≤ n_bins) (h0 : 0 ≤ s ∧ s < n_bins) (h1 : 0 ≤ s1 ∧ s1 < n_bins)
+    (h2 : 0 ≤ s2 ∧ s2 < n_bins) :
+    ∀ x ∈ mi_run_sites n_samples N n_bins i k j l m s s1 s2, x.guard →
+      siteFine x (miRunCnt n_samples N n_bins x.arr) := by
+  have r1 := @row2 i N N; have r2 := @row2 i N n_samples; have r3 := @row2 j N n_samples
+  have r4 := @row2 i N n_bins; have r5 := @row2 j N n_bins; have r6 := @row2 l n_bins n_bins
+  have r7 := @row2 s1 n_bins n_bins; have r8 := @row2 j N N
+  simp only [mi_run_sites, List.forall_mem_cons, List.not_mem_nil, false_imp_iff,
+    implies_true, and_true, miRunCnt]
+  (with_reducible and_intros) <;> site_bounds
+
+/-- the element counts used above are the allocations of the wrappers (generated `…_allocs`) and
+the shapes of the arrays they pass -/
+theorem run_counts_are_allocations (N T nb : Nat) :
+    (tmi_allocs N T nb).map (fun a => (a.1, (a.2.1 : Int)))
+      = [("symbolic_original", tmiRunCnt N T nb "symbolic_original"),
+         ("symbolic_surrogates", tmiRunCnt N T nb "symbolic_surrogates"),
+         ("hist_original", tmiRunCnt N T nb "hist_original"),
+         ("hist_surrogates", tmiRunCnt N T nb "hist_surrogates"),
+         ("hist2d", tmiRunCnt N T nb "hist2d"), ("mi", tmiRunCnt N T nb "mi")]
+    ∧ (mi_allocs T N nb).map (fun a => (a.1, (a.2.1 : Int)))
+      = [("symbolic", miRunCnt T N nb "symbolic"), ("hist", miRunCnt T N nb "hist"),
+         ("hist2d", miRunCnt T N nb "hist2d"), ("mi", miRunCnt T N nb "mi")] := by
+  simp [tmi_allocs, mi_allocs, tmiRunCnt, miRunCnt]
+
+/-- the only stores into the symbol arrays are the two branches of the binning (whose values are
+in `[0, n_bins)` by `symbolX_in_range`), and nothing else is written through a pointer than
+counters, the 2-d histogram reset and the result -/
+theorem run_stores_census :
+    tmi_stores = [("symbolic_original", "= (int) (rescaled * n_bins)"),
+                  ("symbolic_original", "= n_bins - 1"), ("hist_original", "++"),
+                  ("symbolic_surrogates", "= (int) (rescaled * n_bins)"),
+                  ("symbolic_surrogates", "= n_bins - 1"), ("hist_surrogates", "++"),
+                  ("hist2d", "++"), ("mi", "+= (float) (plm * log(plm/hpm/hpl))"), ("hist2d", "= 0")]
+    ∧ mi_stores = [("symbolic", "= (long) (rescaled * n_bins)"), ("symbolic", "= n_bins - 1"),
+                   ("hist", "++"), ("hist2d", "++"), ("mi", "+= (float) (plm * log(plm/hpm/hpl))"),
+                   ("mi", "= *p_mi"), ("hist2d", "= 0")]
+    ∧ tmi_run_symbols = ["s_p_symbolic_original", "s_p_symbolic_surrogates"]
+    ∧ mi_run_symbols = ["s_p_symbolic", "s_p_symbolic1", "s_p_symbolic2"] := by
+  refine ⟨by decide, by decide, by decide, by decide⟩
+
+/-- non-vacuity: 32 / 27 sites; sharpness: a bin number `n_bins` (one too large) leaves `hist2d` -/
+example : (tmi_run_sites 2 3 4 1 2 0 3 3 3 3).length = 32
+    ∧ (mi_run_sites 3 2 4 1 2 0 3 3 3 3 3).length = 27 := by decide
+example : ¬ (∀ s ∈ tmi_run_sites 2 3 4 1 2 0 3 3 4 3, s.guard →
+    siteFine s (tmiRunCnt 2 3 4 s.arr)) := by
+  intro h
+  have := h ⟨0, "hist2d", 64, ((4 * 4) + 3), [((4 * 4) + 3)],
+    (0 ≤ (1:Int) ∧ (1:Int) < 2) ∧ (0 ≤ (0:Int) ∧ (0:Int) < 2) ∧ (0 ≤ (2:Int) ∧ (2:Int) < 3)⟩
+    (by simp [tmi_run_sites]) (by decide)
+  simp [siteFine, tmiRunCnt] at this
 
 end Pyunicorn.Access
